@@ -326,12 +326,12 @@ func main() {
 	if f.Replay != "" {
 		keys = replayKeys(f.Replay, r)
 	} else {
-		for i := 0; i < f.Scale(5, 40); i++ {
+		for i := 0; i < f.Scale(5, 24); i++ {
 			for _, dstNew := range []bool{false, true} {
 				keys = append(keys, scenKey{"short", f.Seed*1000 + uint64(i), i%2 == 0, dstNew, "memory"})
 			}
 		}
-		for i := 0; i < f.Scale(1, 6); i++ {
+		for i := 0; i < f.Scale(1, 5); i++ {
 			for _, dstNew := range []bool{false, true} {
 				keys = append(keys, scenKey{"snapshot-reorg", f.Seed*1000 + uint64(i), i%2 == 1, dstNew, "memory"})
 				keys = append(keys, scenKey{"prune", f.Seed*1000 + uint64(i), i%2 == 0, dstNew, "memory"})
@@ -340,13 +340,13 @@ func main() {
 		for _, dstNew := range []bool{false, true} {
 			keys = append(keys, scenKey{"boundary-directed-killed", f.Seed, dstNew, dstNew, "memory"})
 			keys = append(keys, scenKey{"boundary-directed-graceful", f.Seed, dstNew, dstNew, "memory"})
-			for i := 0; i < f.Scale(1, 6); i++ {
+			for i := 0; i < f.Scale(1, 4); i++ {
 				keys = append(keys, scenKey{"boundary-random-killed", f.Seed*1000 + uint64(i), dstNew, dstNew, "memory"})
 				keys = append(keys, scenKey{"boundary-random-graceful", f.Seed*1000 + uint64(i), dstNew, dstNew, "memory"})
 			}
 		}
 		if f.Thorough() {
-			for i := 0; i < 6; i++ {
+			for i := 0; i < 4; i++ {
 				for _, dstNew := range []bool{false, true} {
 					keys = append(keys, scenKey{"short", f.Seed*1000 + 500 + uint64(i), i%2 == 0, dstNew, "pebble"})
 					keys = append(keys, scenKey{"prune", f.Seed*1000 + 500 + uint64(i), i%2 == 0, dstNew, "pebble"})
